@@ -36,11 +36,11 @@ def load_contracts(prop):
 
 
 def _verify_worker(args):
-    prop, key = args
+    prop, key, first = args
     try:
         from pyvc.driver import verify_function
         src = _verify_worker.src
-        return verify_function(src, key, prop)
+        return verify_function(src, key, prop, first)
     except Exception as e:
         return {"key": key, "prop": prop, "paths": 0, "obligations": [],
                 "raw_obligations": 0, "undecided": ["engine error: " + repr(e) + traceback.format_exc()],
@@ -106,6 +106,38 @@ def run_runtime(prop, tier, seed, only=None, timeout=None):
         return {"checks": [], "error": "runtime runner produced no result: " +
                 p.stderr[-2000:]}
     return json.loads(lines[-1][len("RUNTIME-JSON "):])
+
+
+def merge_split(results):
+    """results of one function explored in several processes are merged"""
+    out, by_key = [], {}
+    rank = {"unsat": 0, "unknown": 1, "sat": 2}
+    for r in results:
+        k = r["key"]
+        if k not in by_key:
+            by_key[k] = r
+            r["_obs"] = {o["name"]: o for o in r["obligations"]}
+            out.append(r)
+            continue
+        m = by_key[k]
+        m["paths"] += r["paths"]
+        m["wall_s"] = max(m["wall_s"], r["wall_s"])
+        m["undecided"] = sorted(set(m["undecided"]) | set(r["undecided"]))
+        m["engine_error"] |= r["engine_error"]
+        for c, n in r["covers"].items():
+            m["covers"][c] = m["covers"].get(c, 0) + n
+        for o in r["obligations"]:
+            e = m["_obs"].get(o["name"])
+            if e is None:
+                m["_obs"][o["name"]] = o
+            else:
+                e["paths"] += o["paths"]
+                e["solver_ms"] += o["solver_ms"]
+                if rank[o["result"]] > rank[e["result"]]:
+                    e.update({x: o[x] for x in ("result", "model", "smt2", "info")})
+    for r in out:
+        r["obligations"] = list(r.pop("_obs").values())
+    return out
 
 
 def slug(s):
@@ -210,7 +242,13 @@ def main(argv=None):
     if args.only:
         keys = [k for k in keys if args.only in k]
     lemmas = list(getattr(C, "LEMMAS", {}).get(prop, {}).keys())
-    tasks = [(prop, k) for k in keys]
+    tasks = []
+    for k in keys:
+        n = getattr(C.REGISTRY[k], "split_first_choice", None)
+        if n:
+            tasks.extend((prop, k, i) for i in range(n))
+        else:
+            tasks.append((prop, k, None))
     results = []
     ctx = mp.get_context("fork")
     with ctx.Pool(min(args.jobs, max(1, len(tasks) + len(lemmas)))) as pool:
@@ -225,6 +263,7 @@ def main(argv=None):
     undecided = []
     engine_error = False
     functions = []
+    results = merge_split(results)
     for r in results:
         obligations.extend(r["obligations"])
         for u in r["undecided"]:
